@@ -200,7 +200,8 @@ impl SemanticState {
             // whatever it looks like once resolved.
             if let grammar::ItemDefinitionInner::Type(ty) = &definition.inner {
                 if ty.statements.iter().any(|s| s.field.is_vftable()) {
-                    let vftable_path = path.join(format!("{}Vftable", definition.name).into());
+                    let vftable_path =
+                        path.join(type_definition::vftable::type_name(definition.name.as_str()).into());
                     anyhow::ensure!(
                         self.type_registry.get(&vftable_path).is_none(),
                         "the item `{vftable_path}` is defined more than once (it is also the vftable type of `{new_path}`)"
